@@ -510,8 +510,64 @@ def b_table(tier):
     return b
 
 
+def b_rec_hook(tier):
+    """A user subclass overriding the recursion hook `rec` to give a dependent symbol u = u(x) the derivative du: the total derivative, wherever u stands."""
+    import pymbolic.primitives as p
+    import pymbolic.functions as pf
+    from pymbolic import evaluate
+    from pymbolic.mapper import CallbackMapper
+    from pymbolic.mapper.differentiator import DifferentiationMapper
+    b = BoundedRun("rec-hook", rule="DifferentiationMapper subclasses whose rec() returns du for the variable u (and the library's CallbackMapper installing such a callback): for u as a "
+                   "factor, a term, a base, an exponent, a numerator, a denominator, a call argument, inside a wrapper, the result evaluates to d/dx e + d/du e * du (both partial "
+                   "derivatives from the independent forward-mode evaluation) at 3 rational points", bound="16 expressions x 2 hook styles x 3 points", functions=["DifferentiationMapper.map_*", "Mapper.rec"])
+    x, u, du = p.Variable("x"), p.Variable("u"), p.Variable("du")
+    exprs = [p.Product((u, x)), p.Product((3, x, u)), p.Product((p.Power(x, 2), u)), p.Product((u, u)), p.Power(p.Product((u, x)), 3), p.Quotient(p.Sum((p.Product((u, x)), 1)), p.Sum((x, 2))),
+             p.CommonSubexpression(p.Sum((p.Product((u, x)), 1))), pf.sin(p.Product((u, x))), p.Sum((u, x)), p.Quotient(u, x), p.Quotient(x, u), p.Power(u, 2), p.Power(x, u), p.Sum((p.Product((2, u)), p.Product((x, x, u)))),
+             p.Product((p.Sum((u, 1)), p.Sum((x, u)))), pf.exp(u)]
+    pts = [dict(x=Fraction(2), u=Fraction(3), du=Fraction(5)), dict(x=Fraction(1, 2), u=Fraction(3, 2), du=Fraction(-2)), dict(x=Fraction(3), u=Fraction(1, 3), du=Fraction(1, 4))]
+
+    class Dep(DifferentiationMapper):
+        def rec(self, expr, *a):
+            if isinstance(expr, p.Variable) and expr.name == "u":
+                return du
+            return super().rec(expr, *a)
+
+    def via_callback(e):
+        dm = DifferentiationMapper(x)
+
+        def cb(expr, mapper, *a):
+            if isinstance(expr, p.Variable) and expr.name == "u":
+                return du
+            return mapper.fallback_mapper(expr, *a)
+        return CallbackMapper(cb, dm)(e)
+    for e in exprs:
+        for style, fn in (("subclass", lambda: Dep(x)(e)), ("callback", lambda: via_callback(e))):
+            r = outcome.run(fn)
+            b.case((style, repr(e)), nontrivial=True, sample=dict(style=style, expr=repr(e)))
+            if r[0] != "val":
+                if style == "callback":
+                    continue        # the callback style is only judged where it produces a derivative at all
+                b.fail(Failure("rec-hook", f"what=raised style={style} expr={e!r}", dict(kind="rechook", style=style, expr=repr(e)), expected="a derivative", actual=outcome.describe(r)[:150], functions=["DifferentiationMapper"]))
+                continue
+            for pt in pts:
+                env = dict(pt, math=math, log=math.log, a=[0, 0, 0])
+                try:
+                    dx_, du_ = dual_eval(e, env, x), dual_eval(e, env, u)
+                except (Undefined, ZeroDivisionError, OverflowError):
+                    continue
+                want = dx_.d + du_.d * pt["du"]
+                got = outcome.run(lambda: evaluate(r[1], env))
+                if isinstance(want, complex) or not (got[0] == "val" and close(got[1], want)):
+                    if isinstance(want, complex):
+                        continue
+                    b.fail(Failure("rec-hook", f"what=total-derivative style={style} expr={e!r} point={pt}"[:300], dict(kind="rechook", style=style, expr=repr(e)), expected=repr(want), actual=outcome.describe(got)[:120],
+                                   functions=["DifferentiationMapper.map_product", "Mapper.rec"]))
+                    break
+    return b
+
+
 def bounded(tier, seed, procs):
-    return [b_dual(tier, seed), b_table(tier)]
+    return [b_dual(tier, seed), b_table(tier), b_rec_hook(tier)]
 
 
 def replay(case):
